@@ -212,6 +212,28 @@ SHIFT_PROGS = [
 ]
 
 
+# the throw (or runtime error) is NOT the last statement of its function, and the handler is below a native frame: the location
+# must still be the throwing statement's, not the next statement's and not the statement that called the built-in
+ROUTES = {
+    "direct": "cb();", "forEach": "[1].forEach(cb);", "map": "[1].map(cb);", "sort": "[2, 1].sort(cb);", "reduce": "[1, 2].reduce(cb);", "replace-fn": "'a'.replace('a', cb);",
+    "replace-regexp-fn": "'a'.replace(/a/, cb);", "call": "cb.call(null);", "apply": "cb.apply(null, []);", "bind": "cb.bind(null)();", "valueOf": "({valueOf: cb}) + 1;",
+    "toString": "String({toString: cb});", "getter": "({get g() { return cb(); }}).g;", "setter": "({set s(v) { cb(); }}).s = 1;", "two-natives": "[1].map(function () { return [2].filter(cb); });",
+    "eval": "(0, eval)('cb()');", "new": "new cb();", "JSON-getter": "JSON.stringify({get g() { return cb(); }});",
+}
+for _rn, _call in ROUTES.items():
+    for _kind, _stmt, _marker in (("throw", "throw new RangeError('loc');", "throw new RangeError"), ("runtime", "undefinedThing.prop;", "undefinedThing.prop")):
+        SHIFT_PROGS.append(("%s-via-%s" % (_kind, _rn),
+                            "var r;\nfunction cb() {\n  var before = 1;\n      %s\n  var after = 2;\n  return after;\n}\ntry {\n  var pad = 0;\n  %s\n  pad = 1;\n} catch (e) { r = [e.lineNumber, e.columnNumber]; }\nlog(r);"
+                            % (_stmt, _call), _marker))
+SHIFT_PROGS += [
+    ("throw-then-statement", "var r;\nfunction f() {\n    throw new Error('first');\n  var y = 1;\n}\ntry { f(); } catch (e) { r = [e.lineNumber, e.columnNumber]; }\nlog(r);", "throw new Error"),
+    ("throw-in-if-then-return", "var r;\nfunction f(a) {\n  if (a) {\n       throw new TypeError('t');\n  }\n  return 5;\n}\ntry { f(1); } catch (e) { r = [e.lineNumber, e.columnNumber]; }\nlog(r);", "throw new TypeError"),
+    ("toplevel-throw-then-statement", "var r;\ntry {\n   throw new Error('a');\n  r = 0;\n} catch (e) { r = [e.lineNumber, e.columnNumber]; }\nlog(r);", "throw new Error"),
+    ("throw-in-loop-body", "var r;\ntry {\n  for (var i = 0; i < 3; i++) {\n    if (i === 1)\n          throw new Error('l');\n    r = i;\n  }\n} catch (e) { r = [e.lineNumber, e.columnNumber]; }\nlog(r);", "throw new Error"),
+    ("rethrow-keeps-or-updates", "var r;\ntry {\n  try {\n    null.x;\n  } catch (e1) {\n        throw e1;\n  }\n} catch (e) { r = [e.lineNumber, e.columnNumber]; }\nlog(r);", "throw e1"),
+]
+
+
 def main(ctx):
     cases = []
     for sn, site in THROW_SITES:
